@@ -185,6 +185,27 @@ def rule_T6(tree: Tree) -> RuleResult:
     seed = [src(s.value) for s in body_walk(g.node) if isinstance(s, ast.Assign) and dotted(s.targets[0]) == "seed"]
     ok = ok and seed == ["b'master secret' + client_random + server_random"]
     r.ob(ok, Finding("T6", f"{KD}:seed-order", "seed order: master secret = label ‖ client_random ‖ server_random; key expansion = label ‖ server_random ‖ client_random (RFC 5246 §6.3 / §8.1)", kd.relpath))
+    # PRF expansion: iterate while the output is shorter than requested, then truncate
+    for fn, accs in (("prf_ssl_30", ["key_block"]), ("prf_tls_10_11", ["p_md5", "p_sha1"]), ("prf_tls_12", ["secret_block"])):
+        g = tree.func(KD, fn)
+        for acc in accs:
+            r.instances += 1
+            loops = [n for n in body_walk(g.node) if isinstance(n, ast.While) and src(n.test) in (f"len({acc}) < length", f"length > len({acc})")]
+            grows = any(isinstance(s2, ast.Assign) and dotted(s2.targets[0]) == acc and src(s2.value).startswith(f"{acc} + ") for l in loops for s2 in ast.walk(l)) or \
+                any(isinstance(s2, ast.AugAssign) and dotted(s2.target) == acc for l in loops for s2 in ast.walk(l))
+            r.ob(len(loops) == 1 and grows, Finding("T6", f"{KD}:{fn}:expansion:{acc}",
+                                                   f"{fn}: `{acc}` must be extended by whole digests `while len({acc}) < length` (P_hash / SSLv3 expansion produce at least the requested bytes); "
+                                                   f"a fixed or floored round count yields a short key block and truncated keys / IVs", kd.line(g.node)))
+        r.instances += 1
+        rets = [src(n.value) for n in body_walk(g.node) if isinstance(n, ast.Return)]
+        r.ob(len(rets) == 1 and rets[0].endswith("[:length]"), Finding("T6", f"{KD}:{fn}:truncate", f"{fn} must return exactly `length` bytes (…[:length]); found {rets}", kd.line(g.node)))
+    # SSLv3 round labels 'A', 'BB', 'CCC', …: counter starts at 1 and is advanced once per round
+    r.instances += 1
+    g = tree.func(KD, "prf_ssl_30")
+    init = [try_fold(s2.value) for s2 in g.node.body if isinstance(s2, ast.Assign) and dotted(s2.targets[0]) == "counter"]
+    incs = [src(s2) for s2 in body_walk(g.node) if isinstance(s2, ast.AugAssign) and dotted(s2.target) == "counter"]
+    lab = any("counter * sec_bits[counter - 1]" in src(s2, 300) for s2 in body_walk(g.node) if isinstance(s2, ast.Expr))
+    r.ob(init == [1] and incs == ["counter += 1"] and lab, Finding("T6", f"{KD}:prf_ssl_30:round-label", "SSL 3.0 round i is salted with i copies of the i-th letter; the counter starts at 1 and advances by 1 per round", kd.line(g.node)))
     # PRF hash selection for TLS 1.2
     r.instances += 1
     g = tree.func(KD, "prf_tls_12")
